@@ -1,7 +1,7 @@
 (* C08: the generic lemmas of Fork/Proofs.v restated over the [Item] record ("for every item"), and the
    facts that are specific to one built-in item. *)
 From Coq Require Import ZArith List Bool Lia Arith.
-From Herc Require Import Fork.Model Fork.Proofs.
+From Herc Require Import Fork.Model Fork.Proofs Fork.Lineage.
 Import ListNotations.
 Local Open Scope nat_scope.
 
@@ -70,6 +70,22 @@ Proof.
   intros it vd acts bs j p s0 H Hv Hok.
   exact (twin _ _ _ _ (it_step it) (vd_V it vd) (vd_view it vd) (vd_okop it vd) (vd_det it vd) (vd_stab it vd)
               acts bs j p s0 H Hv Hok).
+Qed.
+
+(* the twin of a copy that was created by forks of forks: its lineage *)
+Lemma item_lineage_twin : forall (it : Item) (vd : ViewDet it) (acts : list (act (it_op it))) (bs : ibstate it)
+    (s0 : it_shared it) (j r : nat) (ops : list (it_op it)),
+  vd_view it vd s0 = vd_view it vd (shd bs) ->
+  forallb (iact_ok it vd) acts = true ->
+  nth_error (lin_run (it_op it) acts (lin_init (it_op it) (length (privs bs)))) j = Some (r, ops) ->
+  exists p0, nth_error (privs bs) r = Some p0 /\
+    nth_error (privs (fst (irun it acts bs))) j = Some (fst (fst (isolo it ops p0 s0))) /\
+    forall o, snd (step_on (it_priv it) (it_shared it) (it_op it) (it_out it) (it_step it) j o (fst (irun it acts bs)))
+              = Some (snd (it_step it o (fst (fst (isolo it ops p0 s0))) (snd (fst (isolo it ops p0 s0))))).
+Proof.
+  intros it vd acts bs s0 j r ops Hv Hok HL.
+  exact (lineage_twin _ _ _ _ (it_step it) (vd_V it vd) (vd_view it vd) (vd_okop it vd) (vd_det it vd) (vd_stab it vd)
+                      acts bs s0 j r ops Hv Hok HL).
 Qed.
 
 (* ------------------------------------------------------------------------------------------ *)
@@ -200,17 +216,31 @@ Lemma pl_twin : forall (size : Z) (acts : list (act (commit * Z))) (bs : bstate 
     = Some (fst (fst (solo pl_priv tk_shared (commit * Z) pl_out (pl_step size) (ops_of (commit * Z) j acts) p s0))).
 Proof. intros size. exact (item_twin (pl_item size) (pl_viewdet size)). Qed.
 
+Lemma pl_lineage_twin : forall (size : Z) (acts : list (act (commit * Z))) (bs : bstate pl_priv tk_shared) (s0 : tk_shared)
+    (j r : nat) (ops : list (commit * Z)),
+  ts_tick0 s0 = ts_tick0 (shd bs) ->
+  forallb no_first_commit acts = true ->
+  nth_error (lin_run (commit * Z) acts (lin_init (commit * Z) (length (privs bs)))) j = Some (r, ops) ->
+  exists p0, nth_error (privs bs) r = Some p0 /\
+    nth_error (privs (fst (run pl_priv tk_shared (commit * Z) pl_out (pl_step size) acts bs))) j
+      = Some (fst (fst (solo pl_priv tk_shared (commit * Z) pl_out (pl_step size) ops p0 s0))) /\
+    forall o, snd (step_on pl_priv tk_shared (commit * Z) pl_out (pl_step size) j o
+                     (fst (run pl_priv tk_shared (commit * Z) pl_out (pl_step size) acts bs)))
+              = Some (snd (pl_step size o (fst (fst (solo pl_priv tk_shared (commit * Z) pl_out (pl_step size) ops p0 s0)))
+                                          (snd (fst (solo pl_priv tk_shared (commit * Z) pl_out (pl_step size) ops p0 s0))))).
+Proof. intros size. exact (item_lineage_twin (pl_item size) (pl_viewdet size)). Qed.
+
 (* ------------------------------------------------------------------------------------------ *)
 (* BurndownAnalysis: the tracked files of a copy are touched by nobody else (instance of the frame lemma),
    while the shared bookkeeping really is a channel between branches (see the examples in props/C08.v). *)
 
-Lemma bd_files_frame : forall (people : bool) (acts : list (act bd_op)) (bs : bstate bd_priv bd_shared) (j : nat) (p : bd_priv),
+Lemma bd_files_frame : forall (people track : bool) (acts : list (act bd_op)) (bs : bstate bd_priv bd_shared) (j : nat) (p : bd_priv),
   nth_error (privs bs) j = Some p ->
   forallb (fun a => negb (steps_on bd_op j a)) acts = true ->
-  option_map bp_files (nth_error (privs (fst (run bd_priv bd_shared bd_op bd_out (bd_step people) acts bs))) j) = Some (bp_files p).
+  option_map bp_files (nth_error (privs (fst (run bd_priv bd_shared bd_op bd_out (bd_step people track) acts bs))) j) = Some (bp_files p).
 Proof.
-  intros people acts bs j p H Hall.
-  pose proof (item_frame (bd_item people) acts bs j p H Hall) as F. cbn in F. rewrite F. reflexivity.
+  intros people track acts bs j p H Hall.
+  pose proof (item_frame (bd_item people track) acts bs j p H Hall) as F. cbn in F. rewrite F. reflexivity.
 Qed.
 
 (* Items forked with ForkSamePipelineItem: a step on any copy is a step on the one shared state. *)
